@@ -41,7 +41,7 @@ def run(check: Check) -> None:
     import itertools
 
     ok = all(ch_c17.resolve(k, *bits) for k in range(3) for bits in itertools.product((False, True), repeat=6))
-    ok = ok and all(ch_c17.dot_expand(av, lh, ii, ex) for av in range(10) for lh in range(10) for ii in (False, True) for ex in range(3))
+    ok = ok and all(ch_c17.dot_expand(av, lh, ii, ex) for av in range(10) for lh in range(13) for ii in (False, True) for ex in range(3))
     check.obligation("resolution+dot/native cross-validation", "ground" if ok else "refuted")
     if not ok:
         check.harness_error("a C17 CrossHair harness fails natively on its full enumerated space")
